@@ -65,7 +65,7 @@ func main() {
 		ps := e.specs[p]
 		for _, key := range ps.Order {
 			c := ps.Contracts[key]
-			if c.Trusted {
+			if c.Trusted || c.Inline {
 				continue
 			}
 			if *prop != "" && !contains(c.Props, *prop) {
